@@ -244,6 +244,15 @@ var c12Constructs = []c12construct{
 		}
 		return one(m, src, sites...)
 	}},
+	{"explicit-escape-strategy-from-a-variable", false, func(m, h string) (map[string]string, []c12site) {
+		// the strategy is data: the template's own type (same output as {{ x }}), and one nobody has registered
+		// (whatever the filter does with it, the value is still data in a template of this type)
+		if expectedType(m) == "" {
+			return one(m, "[2:{{ x }}]", c12site{id: "2", direct: true})
+		}
+		return one(m, "[1:{{ x|escape(own) }}][2:{{ x }}][3:{{ x|escape(strat) }}][4:{{ x|escape(strat)|upper }}]",
+			c12site{id: "1", direct: true}, c12site{id: "2", direct: true}, c12site{id: "3", direct: false}, c12site{id: "4", direct: false})
+	}},
 }
 
 func (p *c12) Init(tier string, seed int64) {
@@ -554,7 +563,7 @@ func (p *c12) Run(i int) (res fw.Result) {
 				gen.KindText = payload
 				x = &gen.KindSlice{3}
 			}
-			ctx := map[string]stick.Value{"x": x, "t": true, "f": false, "arr": []stick.Value{x, x}, "hash": map[string]stick.Value{"k": x}}
+			ctx := map[string]stick.Value{"x": x, "t": true, "f": false, "arr": []stick.Value{x, x}, "hash": map[string]stick.Value{"k": x}, "own": mainType, "strat": "nosuchstrategy"}
 			var buf bytes.Buffer
 			mon.BeginExec()
 			var err error
